@@ -1,3 +1,8 @@
+//! vf-typed: check C22 (typed SBOR codecs agree with their generated schemas).
+
+pub mod c22;
+pub mod registry;
+
 pub fn checks() -> Vec<vf_core::Check> {
-    vec![]
+    vec![c22::check()]
 }
